@@ -35,7 +35,7 @@ def outcome_of(sim, case):
 
 def machine(tier, ctx):
     import sys
-    return hist.make_machine(sys.modules[__name__], tier, ctx, checks=CHECKS, weights=dict(faulty=1))
+    return hist.make_machine(sys.modules[__name__], tier, ctx, checks=CHECKS, cfg_strategy=hist.sim_config(None, ('mem', 'amem', 'local')), weights=dict(faulty=1))
 
 
 def run_case(case):
